@@ -74,6 +74,11 @@ fn cases(tier: Tier) -> &'static Vec<Case> {
                     prefixes.push((format!("read{}by{}", k, rs), ReadPlan::part(rs, k), false));
                 }
                 prefixes.push((format!("eof-by{}", rs), ReadPlan::all(rs), true));
+                // all the data, end-of-stream not observed, then a read with an empty buffer
+                prefixes.push((format!("read{}by{}-then-zero-length-read", n, rs), ReadPlan::ThenZeroLengthRead { size: rs, limit: n }, false));
+                if n > 2 {
+                    prefixes.push((format!("read{}by{}-then-zero-length-read", n / 2, rs), ReadPlan::ThenZeroLengthRead { size: rs, limit: n / 2 }, false));
+                }
             }
             prefixes.dedup_by(|a, b| a.0 == b.0);
             for (pl, rp, all) in prefixes {
@@ -143,7 +148,7 @@ impl Check for C09 {
     }
     fn rule(&self, tier: Tier) -> String {
         format!(
-            "first request with body framing {:?} x consumption {{0, 1, len/2, len-1, len bytes without seeing end-of-stream, to end-of-stream}} with read sizes 1/7/4096 x finish {{respond, drop, into_writer raw response}} x following pipelined requests {:?}; {} conversations; the requests delivered after the body-bearing one must be exactly the following ones (heads and bodies), each answered, no 400; non-trivial = the body was not read to its end",
+            "first request with body framing {:?} x consumption {{0, 1, len/2, len-1, len bytes without seeing end-of-stream, len/2 or len bytes followed by a read with an empty buffer, to end-of-stream}} with read sizes 1/7/4096 x finish {{respond, drop, into_writer raw response}} x following pipelined requests {:?}; {} conversations; the requests delivered after the body-bearing one must be exactly the following ones (heads and bodies), each answered, no 400; non-trivial = the body was not read to its end",
             framings(tier).iter().map(|f| f.0.clone()).collect::<Vec<_>>(), followers(tier).iter().map(|f| f.0).collect::<Vec<_>>(), cases(tier).len()
         )
     }
